@@ -481,6 +481,136 @@ impl Model for StackModel {
     }
 }
 
+/// The same operations on a stack of a *wide, non-Copy* element type: `Stack<T>` is generic, the BFS above
+/// runs it at `u8`.  Every operation sequence of length <= 3 over a reduced alphabet is applied to a
+/// `Stack<u8>` and to a `Stack<Wide>` (a heap-allocated string plus padding carrying the same byte); return
+/// values and contents must correspond after every step.
+#[derive(Clone, Debug, PartialEq, Eq)]
+struct Wide {
+    tag: String,
+    pad: [u64; 5],
+}
+fn wide(v: u8) -> Wide {
+    Wide { tag: format!("value-{v}"), pad: [v as u64; 5] }
+}
+fn narrow(w: &Wide) -> u8 {
+    w.pad[0] as u8
+}
+fn apply_wide(s: &mut Stack<Wide>, op: &Op) -> Ret {
+    struct It(std::vec::IntoIter<Wide>, bool);
+    impl Iterator for It {
+        type Item = Wide;
+        fn next(&mut self) -> Option<Wide> {
+            self.0.next()
+        }
+        fn size_hint(&self) -> (usize, Option<usize>) {
+            if self.1 {
+                (0, Some(0))
+            } else {
+                (0, None)
+            }
+        }
+    }
+    let r = mcx::guarded(|| match op {
+        Op::Push(v) => s.push(wide(*v)).map(|()| Ret::Unit),
+        Op::Pop => s.pop().map(|v| Ret::Vals(vec![narrow(&v)])),
+        Op::Pop2 => s.pop2().map(|(a, b)| Ret::Vals(vec![narrow(&a), narrow(&b)])),
+        Op::Pop3 => s.pop3().map(|(a, b, c)| Ret::Vals(vec![narrow(&a), narrow(&b), narrow(&c)])),
+        Op::Top => s.top().map(|v| Ret::Vals(vec![narrow(v)])),
+        Op::Top2 => s.top2().map(|(a, b)| Ret::Vals(vec![narrow(a), narrow(b)])),
+        Op::Top3 => s.top3().map(|(a, b, c)| Ret::Vals(vec![narrow(a), narrow(b), narrow(c)])),
+        Op::Discard(k) => s.discard(*k).map(|()| Ret::Unit),
+        Op::PushMany(l) => s.push_many(l.iter().map(|v| wide(*v)).collect::<Vec<_>>()).map(|()| Ret::Unit),
+        Op::TryExtend(l, lying) => {
+            let mut it = It(l.iter().map(|v| wide(*v)).collect::<Vec<_>>().into_iter(), *lying);
+            s.try_extend(&mut it).map(|()| Ret::Unit)
+        }
+        Op::SetMax(c) => {
+            s.set_max_stack_size(*c);
+            Ok(Ret::Unit)
+        }
+        Op::Size => Ok(Ret::Num(s.size())),
+        Op::IsEmpty => Ok(Ret::Bool(s.is_empty())),
+        Op::IsFull => Ok(Ret::Bool(s.is_full())),
+        Op::MaxSize => Ok(Ret::Num(s.max_stack_size())),
+    });
+    match r {
+        Ok(Ok(r)) => r,
+        Ok(Err(e)) => err_to_ret(e),
+        Err(p) => Ret::Panic(p),
+    }
+}
+fn wide_twin(run: &mut Run) -> u64 {
+    let mut alpha: Vec<Op> = vec![Op::Push(1), Op::Push(2), Op::Pop, Op::Pop2, Op::Pop3, Op::Top, Op::Top2, Op::Top3, Op::Size, Op::IsEmpty, Op::IsFull];
+    for k in 0..=3 {
+        alpha.push(Op::Discard(k));
+    }
+    for l in [vec![3u8, 4], vec![5, 6, 7]] {
+        alpha.push(Op::PushMany(l.clone()));
+        alpha.push(Op::TryExtend(l.clone(), false));
+        alpha.push(Op::TryExtend(l, true));
+    }
+    for c in [0usize, 1, 2, 3, usize::MAX] {
+        alpha.push(Op::SetMax(c));
+    }
+    let depth = if run.quick() { 3 } else { 4 };
+    let n_ops = alpha.len();
+    let total = (0..=depth).map(|d| n_ops.pow(d as u32)).sum::<usize>();
+    let first: Vec<usize> = (0..n_ops).collect();
+    let results = mcx::par_map(first.len(), |fi| {
+        let mut n = 0u64;
+        let mut viol: Option<(String, Vec<Op>)> = None;
+        // all sequences of length 1..=depth starting with alpha[fi], by odometer
+        let mut seq = vec![first[fi]];
+        loop {
+            // run the sequence on both stacks (capacity 3 to start with)
+            let mut a: Stack<u8> = Stack::default();
+            a.set_max_stack_size(3);
+            let mut b: Stack<Wide> = Stack::default();
+            b.set_max_stack_size(3);
+            for (i, oi) in seq.iter().enumerate() {
+                n += 1;
+                let ra = apply_real(&mut a, &alpha[*oi]);
+                let rb = apply_wide(&mut b, &alpha[*oi]);
+                let same_contents = contents(&a) == contents(&b).iter().map(narrow).collect::<Vec<u8>>() && a.max_stack_size() == b.max_stack_size();
+                if (ra != rb || !same_contents) && viol.is_none() {
+                    viol = Some((format!("Stack<u8> returned {ra:?} with contents {:?}, Stack<Wide> returned {rb:?} with contents {:?}", contents(&a), contents(&b).iter().map(narrow).collect::<Vec<u8>>()), seq[..=i].iter().map(|x| alpha[*x].clone()).collect()));
+                }
+            }
+            // next sequence: extend if possible, else increment
+            if seq.len() < depth {
+                seq.push(0);
+                continue;
+            }
+            loop {
+                let last = seq.len() - 1;
+                if last == 0 {
+                    seq.clear();
+                    break;
+                }
+                if seq[last] + 1 < n_ops {
+                    seq[last] += 1;
+                    break;
+                }
+                seq.pop();
+            }
+            if seq.is_empty() {
+                break;
+            }
+        }
+        (n, viol)
+    });
+    let mut n = 0;
+    for (k, v) in results {
+        n += k;
+        if let Some((what, ops)) = v {
+            run.violation("stack/element-type", format!("after {:?}: {what}", ops.iter().map(|o| format!("{o:?}")).collect::<Vec<_>>()), json!({"check":"C04","wide":true,"ops":ops.iter().map(op_to_json).collect::<Vec<_>>()}));
+        }
+    }
+    run.bound("element_type_twin", json!(format!("all {total} operation sequences of length <= {depth} over {n_ops} operations on Stack<u8> and Stack<Wide>")));
+    n
+}
+
 /// Long stacks (sizes around 2^8, where a narrow counter would wrap, and bulk insertions of hundreds of
 /// elements): every operation of a list applied to every (contents, maximum) start state of a family,
 /// compared with the same reference as the BFS.
@@ -575,7 +705,7 @@ pub fn run(run: &mut Run) {
     run.transitions = m.transitions.load(Ordering::Relaxed);
     run.traces_validated = m.transitions.load(Ordering::Relaxed);
     run.evaluations = m.transitions.load(Ordering::Relaxed);
-    let ln = long_stacks(run);
+    let ln = long_stacks(run) + wide_twin(run);
     run.transitions += ln;
     run.traces_validated += ln;
     run.evaluations += ln;
@@ -593,7 +723,7 @@ pub fn run(run: &mut Run) {
     run.assumptions = vec![
         "stateright 0.31 BFS visits every reachable state (cross-checked by a second run with another thread count)".into(),
         "state identity = (contents bottom-first, max_stack_size): these are all the fields of Stack<T>".into(),
-        "element type u8 stands for all T (the code is parametric in T)".into(),
+        "element type u8 in the BFS; a wide non-Copy element type is run in lock-step with u8 on all short operation sequences (the code is parametric in T)".into(),
     ];
     // vacuity guards
     for needed in [
